@@ -352,24 +352,42 @@ pub fn op_tostr(a: &[&str]) -> String {
     }
 }
 
-pub fn op_json(a: &[&str]) -> String {
-    let [codec, h] = a else { return "bad-op".into() };
-    let Some(b) = unhex(h) else { return "bad-op".into() };
-    let mut rd = std::io::Cursor::new(b);
-    match *codec {
-        "keypair" => match ElGamalKeypair::read_json(&mut rd) {
+/// a reader that hands out at most `chunk` bytes per `read` call (pipes, sockets and chained readers do that)
+struct Trickle<'a> { data: &'a [u8], pos: usize, chunk: usize }
+impl<'a> std::io::Read for Trickle<'a> {
+    fn read(&mut self, buf: &mut [u8]) -> std::io::Result<usize> {
+        let n = self.chunk.min(buf.len()).min(self.data.len() - self.pos);
+        buf[..n].copy_from_slice(&self.data[self.pos..self.pos + n]);
+        self.pos += n;
+        Ok(n)
+    }
+}
+/// a writer that accepts at most `chunk` bytes per `write` call
+struct Dribble { out: Vec<u8>, chunk: usize }
+impl std::io::Write for Dribble {
+    fn write(&mut self, buf: &[u8]) -> std::io::Result<usize> {
+        let n = self.chunk.min(buf.len());
+        self.out.extend_from_slice(&buf[..n]);
+        Ok(n)
+    }
+    fn flush(&mut self) -> std::io::Result<()> { Ok(()) }
+}
+
+fn json_read<R: std::io::Read>(codec: &str, rd: &mut R) -> String {
+    match codec {
+        "keypair" => match ElGamalKeypair::read_json(rd) {
             Ok(k) => okhex(&<[u8; 64]>::from(&k)),
             Err(_) => "err".into(),
         },
-        "pubkey" => match ElGamalPubkey::read(&mut rd) {
+        "pubkey" => match ElGamalPubkey::read(rd) {
             Ok(k) => okhex(&k.to_bytes()),
             Err(_) => "err".into(),
         },
-        "secret" => match ElGamalSecretKey::read(&mut rd) {
+        "secret" => match ElGamalSecretKey::read(rd) {
             Ok(k) => okhex(k.as_bytes()),
             Err(_) => "err".into(),
         },
-        "aekey" => match AeKey::read(&mut rd) {
+        "aekey" => match AeKey::read(rd) {
             Ok(k) => okhex(&<[u8; 16]>::from(k)),
             Err(_) => "err".into(),
         },
@@ -377,17 +395,41 @@ pub fn op_json(a: &[&str]) -> String {
     }
 }
 
+pub fn op_json(a: &[&str]) -> String {
+    let [codec, h] = a else { return "bad-op".into() };
+    let Some(b) = unhex(h) else { return "bad-op".into() };
+    let whole = json_read(codec, &mut std::io::Cursor::new(b.clone()));
+    // the same text through readers that return short reads: the result is a function of the text alone
+    for chunk in [1usize, 7, 64] {
+        let r = json_read(codec, &mut Trickle { data: &b, pos: 0, chunk });
+        if r != whole { return format!("variant-mismatch:trickle{}:{}:{}", chunk, whole, r) }
+    }
+    let mid = b.len() / 2;
+    let r = json_read(codec, &mut std::io::Read::chain(&b[..mid], &b[mid..]));
+    if r != whole { return format!("variant-mismatch:chain:{}:{}", whole, r) }
+    whole
+}
+
+fn json_write<W: std::io::Write>(codec: &str, b: &[u8], out: &mut W) -> Option<Option<String>> {
+    Some(match codec {
+        "keypair" => ElGamalKeypair::try_from(b).ok().and_then(|k| k.write_json(out).ok()),
+        "pubkey" => ElGamalPubkey::try_from(b).ok().and_then(|k| k.write(out).ok()),
+        "secret" => ElGamalSecretKey::try_from(b).ok().and_then(|k| k.write(out).ok()),
+        "aekey" => AeKey::try_from(b).ok().and_then(|k| k.write(out).ok()),
+        _ => return None,
+    })
+}
+
 pub fn op_tojson(a: &[&str]) -> String {
     let [codec, h] = a else { return "bad-op".into() };
     let Some(b) = unhex(h) else { return "bad-op".into() };
     let mut out: Vec<u8> = vec![];
-    let r = match *codec {
-        "keypair" => ElGamalKeypair::try_from(b.as_slice()).ok().and_then(|k| k.write_json(&mut out).ok()),
-        "pubkey" => ElGamalPubkey::try_from(b.as_slice()).ok().and_then(|k| k.write(&mut out).ok()),
-        "secret" => ElGamalSecretKey::try_from(b.as_slice()).ok().and_then(|k| k.write(&mut out).ok()),
-        "aekey" => AeKey::try_from(b.as_slice()).ok().and_then(|k| k.write(&mut out).ok()),
-        _ => return "bad-op".into(),
-    };
+    let Some(r) = json_write(codec, &b, &mut out) else { return "bad-op".into() };
+    // a writer that takes a few bytes at a time receives the same text
+    let mut d = Dribble { out: vec![], chunk: 3 };
+    if let Some(Some(_)) = json_write(codec, &b, &mut d) {
+        if d.out != out { return format!("variant-mismatch:short-writes:{}:{}", hex(&out), hex(&d.out)) }
+    }
     match r {
         Some(s) if s.as_bytes() == out.as_slice() => hex(&out),
         Some(_) => "writer-mismatch".into(),
@@ -545,6 +587,48 @@ pub fn op_elg(a: &[&str]) -> String {
                 _ => bad(),
             }
         }
+        ["grand", amt, pattern, secrets @ ..] => {
+            // the randomized `GroupedElGamal::<N>::encrypt` with key *references* arranged by `pattern` (e.g. "011":
+            // positions 1 and 2 are the same object): every handle decrypts under its own key to the amount, and
+            // positions with the same key give the same single-handle ciphertext
+            let Some(x) = u64arg(amt) else { return bad() };
+            let ss: Option<Vec<Scalar>> = secrets.iter().map(|h| scalar(h)).collect();
+            let Some(ss) = ss else { return bad() };
+            if ss.iter().any(|s| *s == Scalar::ZERO) { return bad() }
+            let kps: Vec<ElGamalKeypair> = ss.iter().map(|s| ElGamalKeypair::new(ElGamalSecretKey::from(*s))).collect();
+            let idx: Option<Vec<usize>> = if *pattern == "-" { Some(vec![]) } else { pattern.chars().map(|c| c.to_digit(10).map(|d| d as usize)).collect() };
+            let Some(idx) = idx else { return bad() };
+            if idx.iter().any(|i| *i >= kps.len()) { return bad() }
+            let target = Scalar::from(x) * G;
+            macro_rules! run { ($n:expr, $refs:expr) => {{
+                for _ in 0..3 {
+                    let g = GroupedElGamal::<$n>::encrypt($refs, x);
+                    for (pos, ki) in idx.iter().enumerate() {
+                        match g.decrypt(kps[*ki].secret(), pos) {
+                            Ok(d) if d.target == target => {}
+                            _ => return format!("variant-mismatch:handle{}", pos),
+                        }
+                        for (pos2, kj) in idx.iter().enumerate() {
+                            if ki == kj && g.to_elgamal_ciphertext(pos).ok() != g.to_elgamal_ciphertext(pos2).ok() { return format!("variant-mismatch:equal-keys:{}:{}", pos, pos2) }
+                        }
+                    }
+                    if x < (1u64 << 32) {
+                        for (pos, ki) in idx.iter().enumerate() {
+                            if g.decrypt_u32(kps[*ki].secret(), pos).ok().flatten() != Some(x) { return format!("variant-mismatch:u32-handle{}", pos) }
+                        }
+                    }
+                }
+                "ok".to_string()
+            }} }
+            let pk = |i: usize| kps[idx[i]].pubkey();
+            match idx.len() {
+                0 => run!(0, []),
+                1 => run!(1, [pk(0)]),
+                2 => run!(2, [pk(0), pk(1)]),
+                3 => run!(3, [pk(0), pk(1), pk(2)]),
+                _ => bad(),
+            }
+        }
         ["gto", n, h, i] => {
             let (Some(b), Ok(i)) = (unhex(h), i.parse::<usize>()) else { return bad() };
             macro_rules! gto { ($n:expr) => { match GroupedElGamalCiphertext::<$n>::from_bytes(&b) {
@@ -578,6 +662,7 @@ pub fn op_ae(a: &[&str]) -> String {
             let ct = k.encrypt(x);
             format!("emit:!some:{} ae dec {} {}", x, key, hex(&ct.to_bytes()))
         }
+        ["mencrypt", _key, _amount, _nonce] => "emit:".into(),
         ["dec", key, ct] => {
             let (Some(k), Some(c)) = (unhex(key), unhex(ct)) else { return "bad-op".into() };
             let Ok(k) = AeKey::try_from(k.as_slice()) else { return "bad-op".into() };
@@ -670,5 +755,35 @@ pub fn op_dlog(a: &[&str]) -> String {
         results.push(d.decode_u32());
     }
     if results[0] != results[1] { return format!("variant-mismatch:{:?}:{:?}", results[0], results[1]) }
+    // decoders do not disturb each other: the same decode while another caller keeps decoding (with threads) in the
+    // same process gives the same answer. (Only for in-range targets with a threaded configuration: cheap enough.)
+    if let (Some(_), Ok(n)) = (results[0], threads.parse::<usize>()) {
+        if n > 1 && n <= 8 {
+            let stop = std::sync::Arc::new(std::sync::atomic::AtomicBool::new(false));
+            let stop2 = stop.clone();
+            let other = std::thread::spawn(move || {
+                let small = curve25519_dalek::scalar::Scalar::from(5u64) * curve25519_dalek::constants::RISTRETTO_BASEPOINT_POINT;
+                let mut k = 0u32;
+                while !stop2.load(std::sync::atomic::Ordering::Relaxed) && k < 10_000 {
+                    let mut d = DiscreteLog::new_for_g(small);
+                    let _ = d.num_threads(NonZeroUsize::new(2).unwrap());
+                    if d.decode_u32() != Some(5) { return false }
+                    k += 1;
+                }
+                true
+            });
+            let mut again = vec![];
+            for _ in 0..3 {
+                let mut d = DiscreteLog::new_for_g(p);
+                if d.num_threads(NonZeroUsize::new(n).unwrap()).is_err() { break }
+                if *batch != "-" { if let Some(b) = batch.parse::<usize>().ok().and_then(NonZeroUsize::new) { let _ = d.set_compression_batch_size(b); } }
+                again.push(d.decode_u32());
+            }
+            stop.store(true, std::sync::atomic::Ordering::Relaxed);
+            let other_ok = other.join().unwrap_or(false);
+            if !other_ok { return "variant-mismatch:concurrent-other".into() }
+            if again.iter().any(|r| *r != results[0]) { return format!("variant-mismatch:concurrent:{:?}:{:?}", results[0], again) }
+        }
+    }
     match results[0] { Some(x) => format!("some:{}", x), None => "none".into() }
 }
